@@ -57,6 +57,26 @@ fn special_shapes(text: &[u8], sp: &[u8]) -> Vec<Vec<u8>> {
     ]
 }
 
+/// every proper prefix of a 2-, 3- and 4-byte character (smallest, typical and largest lead bytes):
+/// a line that ENDS in one of them is invalid UTF-8 — an error item, not "need more data"
+const TRUNCATED: [&[u8]; 14] = [
+    b"\xc2", b"\xc3", b"\xdf", b"\xe0", b"\xe0\xa0", b"\xe2", b"\xe2\x82", b"\xed\x9f", b"\xef\xbf", b"\xf0", b"\xf0\x9f", b"\xf0\x9f\x98", b"\xf4", b"\xf4\x8f\xbf",
+];
+
+/// lines ending in a truncated character: after no text / ASCII / multi-byte text, directly before LF,
+/// CR LF, end of file, a CR at end of file, and with another line behind
+fn truncated_streams() -> Vec<(usize, usize, Vec<u8>)> {
+    let mut out = vec![];
+    for tr in TRUNCATED {
+        for text in [&b""[..], b"ab", "é".as_bytes(), "a€😀".as_bytes()] {
+            for end in [&b"\n"[..], b"\r\n", b"", b"\r", b"\nb\n", b"\r\nc"] {
+                out.push((text.len(), text.len() + tr.len(), [text, tr, end].concat()));
+            }
+        }
+    }
+    out
+}
+
 fn all_strings(alphabet: &[u8], max_len: usize, f: &mut dyn FnMut(&[u8])) {
     fn rec(alphabet: &[u8], cur: &mut Vec<u8>, max_len: usize, f: &mut dyn FnMut(&[u8])) {
         f(cur);
@@ -308,6 +328,10 @@ fn random_text(rng: &mut Rng, max_units: usize) -> Vec<u8> {
             6 => v.extend_from_slice("😀".as_bytes()),
             7 => v.push(*rng.pick(&[0xFFu8, 0xC3, 0xA9, 0x80, 0xE2, 0xF0])),
             8 => v.extend_from_slice(SPECIALS[rng.below(SPECIALS.len())]),
+            9 => {
+                v.extend_from_slice(TRUNCATED[rng.below(TRUNCATED.len())]);
+                v.extend_from_slice(*rng.pick(&[&b"\n"[..], b"\r\n", b""]));
+            }
             _ => v.push(b'a' + rng.below(26) as u8),
         }
     }
@@ -349,6 +373,18 @@ fn gen_c15(a: &Args, w: &mut dyn Write) {
                 writeln!(w, "chunkse {}", hex(&s)).unwrap();
             }
         });
+        // lines that end in a truncated multi-byte character: whole, decode_eof directly, and one codec
+        // instance cut before the truncated character / inside it / before the line end
+        for (a, b, st) in truncated_streams() {
+            head(w);
+            writeln!(w, "dec {}", hex(&st)).unwrap();
+            writeln!(w, "chunkse {}", hex(&st)).unwrap();
+            for cut in [a, a + 1, b] {
+                let cut = cut.min(st.len());
+                writeln!(w, "chunks {} {}", hex(&st[..cut]), hex(&st[cut..])).unwrap();
+                writeln!(w, "chunkse {} {}", hex(&st[..cut]), hex(&st[cut..])).unwrap();
+            }
+        }
         let every_byte: Vec<Vec<u8>> = (0..=255u8).map(|b| vec![b]).collect();
         let specials: Vec<&[u8]> = SPECIALS.iter().copied().chain(every_byte.iter().map(|v| &v[..])).collect();
         for sp in specials {
@@ -1657,6 +1693,7 @@ fn long_stream(rng: &mut Rng, sel: Sel) -> Vec<u8> {
                     0 => v.push(0xFF),
                     1 => v.extend_from_slice("é".as_bytes()),
                     2 | 3 => v.extend_from_slice(SPECIALS[rng.below(SPECIALS.len())]),
+                    4 => v.extend_from_slice(TRUNCATED[rng.below(TRUNCATED.len())]),
                     _ => {}
                 }
                 if rng.chance(1, 4) {
@@ -1847,6 +1884,27 @@ fn gen_c13(a: &Args, w: &mut dyn Write) {
                 }
             }
         });
+    }
+    // (T) LinesCodec under Framed, lines that END in a truncated multi-byte character (directly before
+    // LF / CR LF / end of file): an error item each, nothing swallowed — every composition of the short
+    // ones; the longer ones whole, byte by byte and cut before / inside / after the truncated character
+    for (a, b, st) in truncated_streams() {
+        if st.len() <= 6 {
+            for (ci, chunks) in compositions(&st).into_iter().enumerate() {
+                let ins = if ci % 5 == 2 { vec![(ci % (chunks.len() + 1), Rd::Pending)] } else { vec![] };
+                emit_c13(w, &mut id, Sel::Lines, "trunc", &script_with(&chunks, &ins), chunks.len() + 6);
+            }
+        } else {
+            let mut shapes: Vec<Vec<Vec<u8>>> = vec![vec![st.clone()], st.iter().map(|x| vec![*x]).collect()];
+            for cut in [a, a + 1, b] {
+                let cut = cut.min(st.len());
+                shapes.push(vec![st[..cut].to_vec(), st[cut..].to_vec()]);
+            }
+            for chunks in shapes {
+                let chunks: Vec<Vec<u8>> = chunks.into_iter().filter(|c| !c.is_empty()).collect();
+                emit_c13(w, &mut id, Sel::Lines, "trunc", &script_with(&chunks, &[(1, Rd::Pending)]), chunks.len() + 7);
+            }
+        }
     }
     // (W) LinesCodec under Framed and everything a line end / white space could be confused with:
     // the directed shapes around every special, every composition into chunks (a Pending in some)
